@@ -238,6 +238,13 @@ func run(start time.Time) (code int) {
 	}
 	x.dischargeAll(active, work, timeout, 7)
 
+	if d := os.Getenv("GOVC_DUMP"); d != "" {
+		for _, o := range active {
+			if strings.Contains(o.Name, d) {
+				fmt.Printf("=== %s [%s]\nGUARD: %s\nCOND: %s\n", o.Name, o.Status, x.c.ShowFull(o.Guard), x.c.ShowFull(o.Cond))
+			}
+		}
+	}
 	known := loadKnown(*flagKnown)
 	ev := x.report(prop, active, reports, known, start, work, timeout, skipped)
 	if *flagOut != "" {
@@ -327,6 +334,7 @@ func (x *Exec) verifyFunction(fn *ssa.Function, fc *FuncContract, prop string, r
 	st.ep = nil
 	alloc0 := c.Fresh("alloc0_"+fn.Name(), SInt)
 	st.alloc = alloc0
+	x.entryAlloc = alloc0
 	g := c.True()
 	nA0 := len(x.assumps)
 	x.assumeRaw(c.IntCmp(">", alloc0, c.Int(0)))
@@ -343,6 +351,7 @@ func (x *Exec) verifyFunction(fn *ssa.Function, fc *FuncContract, prop string, r
 	}
 	// ghost variables
 	fr.declareGhosts()
+	x.clockOf(st)
 	fr.entry = st.clone()
 	for _, gcl := range fc.Ghosts {
 		want := x.ghostSort(fr.ghostTypes[gcl.Ghost])
